@@ -92,6 +92,16 @@ func (in *Interp) vsymCall(name string, args []Value, c *ssa.CallCommon) []Value
 	case "Near":
 		a, b, abs, rel := args[0].(*Term), args[1].(*Term), args[2].(*Term), args[3].(*Term)
 		return one(in.nearTerm(a, b, abs, rel))
+	case "HuntNear":
+		// bug-hunting form: only a satisfiable answer (a counterexample that replays) matters;
+		// unsat/unknown are both "no counterexample found" and the proof is left to a sibling harness
+		a, b, abs, rel := args[0].(*Term), args[1].(*Term), args[2].(*Term), args[3].(*Term)
+		n := len(in.pendingHunt)
+		_ = n
+		in.huntNext = true
+		in.obligation(strArg(args[4]), "assert", in.nearTerm(a, b, abs, rel))
+		in.huntNext = false
+		return nil
 	case "AssertLe":
 		// a <= b + abs + rel*max(|a|,|b|)
 		a, b, abs, rel := args[0].(*Term), args[1].(*Term), args[2].(*Term), args[3].(*Term)
